@@ -14,6 +14,7 @@ import (
 
 	schedv2alpha2 "github.com/NVIDIA/KAI-scheduler/pkg/apis/scheduling/v2alpha2"
 
+	"verif/mc/clustermc"
 	"verif/mc/engine"
 	"verif/mc/registry"
 	"verif/mc/schedrun"
@@ -58,6 +59,38 @@ func c10Inputs(tier string) []c10Input {
 		out = append(out, c10InputsOne(tier, tight)...)
 	}
 	c10Tight = false
+	out = append(out, validWorlds(tier)...)
+	return out
+}
+
+// validWorlds: every initial world of the other ClusterMC grammars (well-formed clusters). The
+// statement covers ANY API state; panics on valid states found by other checks are only counted
+// there, so C10 sweeps the same worlds for completion.
+func validWorlds(tier string) []c10Input {
+	var out []c10Input
+	seen := map[string]bool{}
+	add := func(fam string, scns []clustermc.Scenario) {
+		for _, sc := range scns {
+			key := fam + "|" + sc.Name
+			if seen[key] {
+				continue
+			}
+			seen[key] = true
+			out = append(out, c10Input{Name: "valid " + fam + " " + sc.Name, Class: "valid-world", World: sc.World, Tight: true})
+		}
+	}
+	add("cap", capScenarios("quick"))
+	add("share", shareScenarios("quick"))
+	add("gang", C03().Scenarios("quick"))
+	add("victims", C06().Scenarios("quick"))
+	add("progress", C05().Scenarios("quick"))
+	add("reclaim", C07().Scenarios("quick"))
+	add("handoff", handoffScenarios("quick"))
+	if tier == "thorough" {
+		add("limits", C08().Scenarios("quick"))
+		add("closed", closedScenarios("quick"))
+		add("order", orderScenarios("quick"))
+	}
 	return out
 }
 
